@@ -22,9 +22,9 @@ From AG Require Import Event.Event Event.EventSpec Event.E2E.
 Definition e2x_F : Type := Z * (Z * Z).
 Definition e2x_fcal (d : Z) (g : e2x_F) : e2x_F := (d * fst g, snd g)%Z.
 Definition e2x_gain (g : Z * Z) : e2x_F := (1%Z, g).
-Definition e2x_model := @try_from_banks_model e2x_F e2x_fcal e2x_gain.
-
-Definition id_order (l : list (list chunkv)) : list (list chunkv) := l.
+(* abbreviations of this file only (notations: the statements are literally about try_from_banks_model) *)
+Local Notation model := (try_from_banks_model e2x_fcal e2x_gain).
+Local Notation id_order := (fun l : list (list chunkv) => l).
 
 (* ------------------------------------------------------------------------------------------ the banks *)
 (* the simulation run number u32::MAX: pad map of run 5000, calibration tables MAP_SIMULATION, pad delay 100 *)
@@ -104,10 +104,16 @@ Proof.
   intros H. apply Forall_forall. intros l Hl. apply bytesb_spec. revert l Hl. apply forallb_forall. exact H.
 Qed.
 (* the only hypothesis on the data of the C10_e2e_* theorems: they are bytes (for every bank list used below) *)
-Lemma e2x_data_are_bytes :
-  Forall bytes (map snd (e2x_twice ++ e2x_wire_pad ++ e2x_two_banks ++ [e2x_pad_bank_data; e2x_pad_bank_other_dev])).
+Lemma e2x_single_bytes : Forall bytes (map snd e2x_single).
 Proof. apply bytes_all. vm_compute. reflexivity. Qed.
-Lemma id_order_is_order : is_order id_order.
+Lemma e2x_twice_bytes : Forall bytes (map snd e2x_twice).
+Proof. apply bytes_all. vm_compute. reflexivity. Qed.
+Lemma e2x_wire_pad_bytes : Forall bytes (map snd e2x_wire_pad).
+Proof. apply bytes_all. vm_compute. reflexivity. Qed.
+Lemma e2x_other_banks_bytes :
+  Forall bytes (map snd (e2x_two_banks ++ [e2x_pad_bank_data; e2x_pad_bank_other_dev])).
+Proof. apply bytes_all. vm_compute. reflexivity. Qed.
+Lemma id_order_is_order : is_order (fun l => l).
 Proof. intros l. apply Permutation.Permutation_refl. Qed.
 Lemma rev_is_order : is_order (@rev _).
 Proof. intros l. apply Permutation.Permutation_sym, Permutation.Permutation_rev. Qed.
@@ -134,8 +140,8 @@ Proof. vm_compute. repeat split; reflexivity. Qed.
    orders; the event has exactly one occupied slot: pad (25, 112) with the two samples after the delay of 100,
    (1735 - 1725) x 1 and (1750 - 1725) x 1 *)
 Lemma e2x_pad_bank_accepted :
-  e2x_model Checked e2x_run e2x_single id_order = Ok e2x_pad_event /\
-  e2x_model Wrapping e2x_run (rev e2x_single) (@rev _) = Ok e2x_pad_event /\
+  model Checked e2x_run e2x_single id_order = Ok e2x_pad_event /\
+  model Wrapping e2x_run (rev e2x_single) (@rev _) = Ok e2x_pad_event /\
   pad_at e2x_pad_event 25 112 = Some [(10, (1, 0)); (25, (1, 0))]%Z.
 Proof. vm_compute. repeat split; reflexivity. Qed.
 
@@ -143,14 +149,14 @@ Proof. vm_compute. repeat split; reflexivity. Qed.
 Lemma e2x_pad_bank_accepted_data_run :
   Chunk.chunk_decode pwb_devices Checked (snd e2x_pad_bank_data) = Ok e2x_chunk_data /\
   pad_cal_e2e e2x_gain e2x_run_data 25 112 = DOk (1738%Z, (1, (5084909536333083, -52))%Z, 115) /\
-  e2x_model Checked e2x_run_data [e2x_pad_bank_data; e2x_trg_bank] id_order = Ok e2x_pad_event_data.
+  model Checked e2x_run_data [e2x_pad_bank_data; e2x_trg_bank] id_order = Ok e2x_pad_event_data.
 Proof. vm_compute. repeat split; reflexivity. Qed.
 
 (* the packet in two chunks = two different banks "PC00" (either bank order): accepted, same event *)
 Lemma e2x_two_chunk_banks_accepted :
   map fst e2x_two_banks = [e2x_name_pc00; e2x_name_pc00] /\
-  e2x_model Checked e2x_run (e2x_two_banks ++ [e2x_trg_bank]) id_order = Ok e2x_pad_event /\
-  e2x_model Checked e2x_run (e2x_trg_bank :: rev e2x_two_banks) id_order = Ok e2x_pad_event.
+  model Checked e2x_run (e2x_two_banks ++ [e2x_trg_bank]) id_order = Ok e2x_pad_event /\
+  model Checked e2x_run (e2x_trg_bank :: rev e2x_two_banks) id_order = Ok e2x_pad_event.
 Proof. vm_compute. repeat split; reflexivity. Qed.
 
 (* ------------------------------------------------------------------------------------------ (b) twice: rejected *)
@@ -160,21 +166,22 @@ Proof. vm_compute. repeat split; reflexivity. Qed.
    literally of the shape l1 ++ (n, d) :: l2 ++ (n, d) :: l3 of C10_e2e_reject_duplicate_pad_bank *)
 Lemma e2x_pad_bank_twice_rejected :
   e2x_twice = [] ++ e2x_pad_bank :: [e2x_trg_bank] ++ e2x_pad_bank :: [] /\
-  e2x_model Checked e2x_run e2x_twice id_order = Err E_pwb /\
-  e2x_model Wrapping e2x_run e2x_twice (@rev _) = Err E_pwb /\
-  e2x_model Checked e2x_run (e2x_pad_bank :: e2x_single) id_order = Err E_pwb /\
-  e2x_model Checked e2x_run (e2x_single ++ [e2x_pad_bank]) id_order = Err E_pwb /\
+  model Checked e2x_run e2x_twice id_order = Err E_pwb /\
+  model Wrapping e2x_run e2x_twice (@rev _) = Err E_pwb /\
+  model Checked e2x_run (e2x_pad_bank :: e2x_single) id_order = Err E_pwb /\
+  model Checked e2x_run (e2x_single ++ [e2x_pad_bank]) id_order = Err E_pwb /\
+  gkeys (decode_banks_m Checked e2x_twice) = [(0, 1)] /\
   reasm_e2e Checked (group (0, 1) (decode_banks_m Checked e2x_twice)) = DErr /\
-  e2x_model Checked e2x_run_data [e2x_pad_bank_data; e2x_trg_bank; e2x_pad_bank_data] id_order = Err E_pwb.
+  model Checked e2x_run_data [e2x_pad_bank_data; e2x_trg_bank; e2x_pad_bank_data] id_order = Err E_pwb.
 Proof. vm_compute. repeat split; reflexivity. Qed.
 
 (* ------------------------------------------------------------------------------------------ (c) wire + pad *)
 (* an anode-wire bank, the pad bank, the TRG bank and an ignored bank together: accepted; wire slot 0 and pad slot
    (25, 112) are the occupied slots.  With the pad bank twice the same event is rejected *)
 Lemma e2x_wire_and_pad_accepted :
-  e2x_model Checked e2x_run e2x_wire_pad id_order = Ok e2x_wire_pad_event /\
-  e2x_model Wrapping e2x_run (rev e2x_wire_pad) (@rev _) = Ok e2x_wire_pad_event /\
-  e2x_model Checked e2x_run (e2x_wire_pad ++ [e2x_pad_bank]) id_order = Err E_pwb.
+  model Checked e2x_run e2x_wire_pad id_order = Ok e2x_wire_pad_event /\
+  model Wrapping e2x_run (rev e2x_wire_pad) (@rev _) = Ok e2x_wire_pad_event /\
+  model Checked e2x_run (e2x_wire_pad ++ [e2x_pad_bank]) id_order = Err E_pwb.
 Proof. vm_compute. repeat split; reflexivity. Qed.
 
 (* ------------------------------------------------------------------------------------------ a pad claimed twice *)
@@ -182,11 +189,11 @@ Proof. vm_compute. repeat split; reflexivity. Qed.
    device (bank "PC01", group (1, 1)); each bank alone is accepted, together the two groups claim pad (25, 112) twice:
    pad_claims has a repetition and the build fails with the duplicate-pad error under both group orders *)
 Lemma e2x_pad_claimed_twice_rejected :
-  e2x_model Checked e2x_run [e2x_pad_bank_other_dev; e2x_trg_bank] id_order = Ok e2x_pad_event /\
+  model Checked e2x_run [e2x_pad_bank_other_dev; e2x_trg_bank] id_order = Ok e2x_pad_event /\
   pad_claims (env_e2e_m e2x_gain Checked e2x_run)
              (decode_banks_m Checked [e2x_pad_bank; e2x_pad_bank_other_dev; e2x_trg_bank]) = [(25, 112); (25, 112)] /\
-  e2x_model Checked e2x_run [e2x_pad_bank; e2x_pad_bank_other_dev; e2x_trg_bank] id_order = Err E_duppad /\
-  e2x_model Checked e2x_run [e2x_pad_bank; e2x_pad_bank_other_dev; e2x_trg_bank] (@rev _) = Err E_duppad.
+  model Checked e2x_run [e2x_pad_bank; e2x_pad_bank_other_dev; e2x_trg_bank] id_order = Err E_duppad /\
+  model Checked e2x_run [e2x_pad_bank; e2x_pad_bank_other_dev; e2x_trg_bank] (@rev _) = Err E_duppad.
 Proof. vm_compute. repeat split; reflexivity. Qed.
 
 (* ------------------------------------------------------------------------------------------ binary64 instance *)
